@@ -811,7 +811,21 @@ func (ctx *RenderContext) EvaluateExpression(node Node) (interface{}, error) {
 		// We can't use pooling with defer here because the map is returned directly
 		result := make(map[string]interface{}, len(n.items))
 
-		for k, v := range n.items {
+		// Entries are evaluated in source order, so that side effects, the
+		// error that is reported and the winner among duplicate keys do not
+		// depend on Go's map iteration order
+		keys := n.order
+		if len(keys) != len(n.items) {
+			// A node that was not built by the parser has no recorded order
+			keys = keys[:0:0]
+			for k := range n.items {
+				keys = append(keys, k)
+			}
+		}
+
+		for _, k := range keys {
+			v := n.items[k]
+
 			// Evaluate the key
 			keyVal, err := ctx.EvaluateExpression(k)
 			if err != nil {
